@@ -388,6 +388,11 @@ class ProgGen:
 		if c == 8:
 			return self.tern(cx, t, d)
 		cx.tags.add('float-int-mix')
+		if self.chance(0.3):
+			# one flat chain with an int first and last and a float in the middle: the type is folded left to right, so it is float
+			cx.tags.add('float-int-chain')
+			op1, op2, p = self.pick([('+', '+', P_ADD), ('+', '-', P_ADD), ('-', '+', P_ADD), ('*', '*', P_MUL)])
+			return (f'{self.wrap(self.leaf(cx, T_INT), p)} {op1} {self.wrap(self.leaf(cx, T_FLOAT), p + 1)} {op2} {self.wrap(self.leaf(cx, T_INT), p + 1)}', p)
 		if self.chance(0.5):  # int operand on the left: the result type must still be float
 			op, p = self.pick([('*', P_MUL), ('+', P_ADD), ('-', P_ADD)])
 			return (f'{self.wrap(self.leaf(cx, T_INT), p)} {op} {self.wrap(self.e_float(cx, t, d - 1), p + 1)}', p)
@@ -1146,7 +1151,12 @@ class ProgGen:
 			f'\tif {v1} is not None:', f'\t\t{r_} += {v1}[0]', f'\t\tfor {e} in {v1}:', f'\t\t\t{r_} += {e}',
 			f'\tif {v2} is not None:', f'\t\t{r_} += {v2}[0] + len({v2})',
 			f'\tif {v3} is None:', f"\t\t{v3} = {{'k': {a}}}", f"\t{r_} += {v3}['k']",
-			f'\tif {v4} is not None:', f'\t\t{r_} += {v4}[0]', f'\treturn {r_}']
+			f'\tif {v4} is not None:', f'\t\t{r_} += {v4}[0]']
+		# both branches of one class with other type arguments: the value is of either type
+		v5, v6, v7 = self.fresh(), self.fresh(), self.fresh()
+		body += self.pick([[f'\t{v5} = [{a}] if {b} else [1.5]', f'\t{r_} += len({v5})'], [f"\t{v6} = {{'k': {a}}} if {b} else {{{a}: 'k'}}", f'\t{r_} += len({v6})'],
+			[f"\t{v7} = ({a}, 's') if {b} else ('s', {a})", f'\t{r_} += len({v7})'], []])
+		body += [f'\treturn {r_}']
 		self.rnd.shuffle(body[:0])
 		self.lines += [f'def {name}({a}: int, {b}: bool) -> int:'] + body + ['']
 		self.funcs.append((name, [(a, T_INT, None), (b, T_BOOL, None)], T_INT, {'optional'}))
